@@ -3,8 +3,15 @@
 //! note: second-stage HTLC transactions (chan_utils.rs build_htlc_transaction / build_htlc_input / build_htlc_output): an HTLC-success / HTLC-timeout transaction spends exactly the HTLC's own output of the given commitment, pays the HTLC amount less exactly the second-stage fee of its kind to the revocable delayed script, and is time-locked to the HTLC's expiry iff it is a timeout transaction (BOLT 3)
 //! trusted: env: bitcoin types are skeletons: Txid, ScriptBuf, Witness opaque; Amount(u64) with from_sat and a checked `-` (bitcoin::Amount panics on underflow: the subtraction carries the no-underflow obligation); Sequence(u32), LockTime::from_consensus, Version::{TWO, non_standard} record their argument; OutPoint / TxIn / TxOut / Transaction are field skeletons of the bitcoin structs; get_revokeable_redeemscript(..).to_p2wsh() is an uninterpreted function of the three arguments; ChannelTypeFeatures two-boolean stub (as in u01); HTLCOutputInCommitment is a field skeleton (payment_hash dropped); `vec![x]` is vstd's vec! (one-element vector)
 //! assume: the HTLC is non-dust on this commitment: its amount in sat is at least the second-stage fee of its kind (that is what keeps it in the commitment, proved for the builder in u01/u01e), and it has an output index
+//! trusted: assume_specification for core::cmp::max / core::cmp::min (std definitions): present in every unit so that a change that introduces them is verified instead of being rejected by the tool
 use vstd::prelude::*;
 verus! {
+use vstd::std_specs::cmp::*;
+use core::cmp;
+pub assume_specification<T: core::cmp::Ord>[core::cmp::max::<T>](a: T, b: T) -> (r: T)
+    ensures T::obeys_cmp_spec() ==> r == (if b.cmp_spec(&a) == core::cmp::Ordering::Less { a } else { b });
+pub assume_specification<T: core::cmp::Ord>[core::cmp::min::<T>](a: T, b: T) -> (r: T)
+    ensures T::obeys_cmp_spec() ==> r == (if b.cmp_spec(&a) == core::cmp::Ordering::Less { b } else { a });
 use vstd::std_specs::ops::*;
 pub struct ChannelTypeFeatures { pub anchors: bool, pub zfc: bool }
 impl ChannelTypeFeatures {
